@@ -405,6 +405,8 @@ def isinstance_value(I, st, v, c, frame):
             if isinstance(c, ClassRef):
                 return [(st, I.m.is_subclass(cls, c.name))]
             return [(st, short == 'object')]
+        if cls != 'Region' and isinstance(c, ClassRef):
+            return [(st, False)]      # an object of a class outside the package is no instance of a package class
         return I.decide(st, ('isinstance', v.oid, short), BOOL, frozenset([True]))
     if isinstance(v, TupleV):
         return [(st, short in ('tuple', 'Sequence', 'Iterable', 'object'))]
